@@ -85,6 +85,11 @@ func (s *HTTPMessageSignatures) init() error {
 			"failed loading keystore for http_message_signatures strategy").CausedBy(err)
 	}
 
+	if len(ks.Entries()) == 0 {
+		return errorchain.NewWithMessage(heimdall.ErrConfiguration,
+			"key store for http_message_signatures strategy does not contain any key")
+	}
+
 	var kse *keystore.Entry
 
 	if len(s.Signer.KeyID) == 0 {
